@@ -64,6 +64,14 @@ Bad(e) ==
                     /\ res("L+1").res = "some" /\ res("L+1").ns = n
                     /\ res("max").res = "some" /\ res("max").ns = n>>,
                  <<"C19:compile_num_states", e.compile_ns = n>>})
+    [] e.op = "replace_re" ->
+         LET t == Core(e.ast) IN
+         Failed({<<"C10:no_panic", Len(e.panics) = 0>>,
+                 <<"C10:str_replace_re", \A j \in 1..Len(e.calls) :
+                       LET c == e.calls[j] IN ~c.all => c.r = ReplaceRe(c.s, t, c.u)>>,
+                 <<"C10:str_replace_re_all", \A j \in 1..Len(e.calls) :
+                       LET c == e.calls[j] IN c.all => c.r = ReplaceReAll(c.s, t, c.u)>>,
+                 <<"C17:result_good", \A j \in 1..Len(e.calls) : e.calls[j].good>>})
     [] e.op = "incl" ->
          Failed({<<"C16:included_in_sound", e.res => SubLang(Core(e.a), Core(e.b))>>,
                  <<"C16:reflexive", e.same => e.res>>})
